@@ -395,9 +395,26 @@ def r9_sub_tables_distinct(ck, cx, rule='R9'):
         return isinstance(x, ast.Attribute) and x.attr.endswith('__sub_lookup')
     for dn in ('ServerDecoder', 'ClientDecoder'):
         d = cx.idx.cls('pymodbus.factory.' + dn)
+        work = [(fn, set()) for fn in d.methods.values()]
+        # a module-level builder whose result is (tuple-)assigned to the table: the returned local is the table inside the builder
         for fn in d.methods.values():
+            for node in ast.walk(fn.node):
+                if isinstance(node, ast.Assign) and isinstance(node.value, ast.Call) and isinstance(node.value.func, ast.Name):
+                    r_ = cx.idx.lookup(fn.mod, node.value.func.id)
+                    if not (r_ and r_[0] == 'func'):
+                        continue
+                    for t in node.targets:
+                        elts = list(t.elts) if isinstance(t, (ast.Tuple, ast.List)) else [t]
+                        for k_, el in enumerate(elts):
+                            if is_tab(el):
+                                for rt in ast.walk(r_[1].node):
+                                    if isinstance(rt, ast.Return) and rt.value is not None:
+                                        rv = rt.value.elts[k_] if isinstance(rt.value, (ast.Tuple, ast.List)) and len(rt.value.elts) == len(elts) else (rt.value if len(elts) == 1 else None)
+                                        if isinstance(rv, ast.Name):
+                                            work.append((r_[1], {rv.id}))
+        for fn, pre_alias in work:
             # local aliases of the table: `self.__sub_lookup = L`, `L = self.__sub_lookup`
-            alias, binds = set(), {}
+            alias, binds = set(pre_alias), {}
             for node in ast.walk(fn.node):
                 if isinstance(node, ast.Assign):
                     for t in node.targets:
